@@ -178,7 +178,12 @@ func c04(c *ctx) {
 	}
 	// the DAO mint is on the msg.Mint branch and after approval
 	c.mpt(mptSpec{rule: "R1", fn: dao, events: evSet{"ApproveProposal": {approve}},
-		atom:   func(v ssa.Value) (string, bool) { if c.p.path(v) == "$1.Mint" { return "msg.Mint", false }; return "", false },
+		atom: func(v ssa.Value) (string, bool) {
+			if c.p.path(v) == "$1.Mint" {
+				return "msg.Mint", false
+			}
+			return "", false
+		},
 		target: tgtCall("MintToPool", l.mintToPool),
 		reqs:   func(string) []string { return []string{"ApproveProposal.ok", "@msg.Mint=T"} }, minTarget: 1})
 	// the faucet mint is on the sender==faucet branch
@@ -294,10 +299,10 @@ func c04(c *ctx) {
 			}
 			c.mpt(mptSpec{
 				rule: "R3", fn: g, events: evSet{},
-				extraEv: l.classify,
-				target:  tgtOkReturn("success-path"),
-				check:   func(label string, in ssa.Instruction, st *PState, e *pathEngine) string { return balanced(st) },
-				desc:    "debited amounts == credited amounts (as expressions)",
+				extraEv:   l.classify,
+				target:    tgtOkReturn("success-path"),
+				check:     func(label string, in ssa.Instruction, st *PState, e *pathEngine) string { return balanced(st) },
+				desc:      "debited amounts == credited amounts (as expressions)",
 				minTarget: 1,
 			})
 		}
@@ -690,4 +695,3 @@ func c20(c *ctx) {
 		r.Analysed["pool_holders_that_mutate"] = nHolders
 	}
 }
-
